@@ -295,6 +295,10 @@ fn parse_frame(sid: &str, addr: &str, body: &str) -> Frame {
     f
 }
 
+pub fn parse_frame_pub(sid: &str, addr: &str, body: &str) -> Frame {
+    parse_frame(sid, addr, body)
+}
+
 // frame_decode <hex>
 pub fn frame_decode(args: &[&str]) -> String {
     match Frame::from_buffer(Bytes::from(unhex(args[0]))) {
